@@ -21,9 +21,22 @@ def one(d):
         env = dict(os.environ, VERIF_REPO=wt, VERIF_EVIDENCE="/tmp/seed-evidence", VERIF_REPLAYS="/tmp/seed-replays/" + d)
         c = subprocess.run(["/verif/check", pid, tier], capture_output=True, text=True, env=env)
         sigs = [l[4:].strip()[:80] for l in c.stdout.splitlines() if l.startswith("--- ")]
-        return d, {"check": pid, "exit": c.returncode, "signatures": sigs[:5], "wall_s": round(time.time() - t0, 1)}
+        res = {"check": pid, "exit": c.returncode, "signatures": sigs[:5], "wall_s": round(time.time() - t0, 1)}
+        # a change that is a violation of a neighbouring property as well may name that check in meta.json ("also")
+        try:
+            also = json.load(open(os.path.join(root, d, "meta.json"))).get("also", [])
+        except Exception:
+            also = []
+        if c.returncode != 1:
+            for other in also:
+                c2 = subprocess.run(["/verif/check", other, tier], capture_output=True, text=True, env=env)
+                if c2.returncode == 1:
+                    s2 = [l[4:].strip()[:80] for l in c2.stdout.splitlines() if l.startswith("--- ")]
+                    res.update({"exit": 1, "caught_by_other_check": other, "signatures": s2[:5]})
+                    break
+        return d, res
     finally:
-        subprocess.run("git -C /repo worktree remove --force %s; rm -rf %s /verif/.build/%s-_tmp_sweepwt-%s" % (wt, wt, pid, d), shell=True)
+        subprocess.run("git -C /repo worktree remove --force %s; rm -rf %s /verif/.build/*-_tmp_sweepwt-%s" % (wt, wt, d), shell=True)
 todo = [d for d in sorted(os.listdir(root)) if os.path.exists(os.path.join(root, d, "patch.diff")) and (not only or d in only)]
 prev = {}
 sp = os.path.join(root, "SWEEP_%s.json" % tier)
